@@ -66,6 +66,13 @@ fn b(s: &str) -> bool {
 
 fn inmem<IntT: for<'a> UInt<'a>>(k: usize, rc: bool, list: &str, op: &[String]) {
     let mut arr = build::<IntT>(k, rc, list);
+    // "save=FILE": first save exactly this in-memory array (C09: "the in-memory data it was saved
+    // from"), then apply the operation to the array still in memory
+    let mut op = op;
+    if let Some(f) = op[0].strip_prefix("save=") {
+        arr.save(f).expect("save");
+        op = &op[1..];
+    }
     match op[0].as_str() {
         "nk" => print_nk(&arr),
         // align FILTER MIN_FREQ AMBIG_MISSING AMBIG_MASK NO_GAP_ONLY
